@@ -1,5 +1,6 @@
-\* decision table export: 264 rows with the documented decision
+\* export: every history of two runs with the documented decision per run
 SPECIFICATION Spec
-CONSTANT Variant = "as_documented"
+CONSTANTS MaxRuns = 2
+  Variant = "as_documented"
 INVARIANT Emit
 CHECK_DEADLOCK FALSE
